@@ -6,10 +6,20 @@
      (2) the scatter product of update_AT_A / update_GT_W_delta_inv_G computes  sum_l w_l XT(i,l) X(l,j)  on every stored entry of
          the upper product pattern, leaves tmp_scatter zeroed, and never indexes out of range;
    plus the structure of the modelled Eigen results (csc_of_cols: well formed, columns as given, entries as given).
-   NOT proved yet: the composition of these pieces into  all_create / all_init / all_update_scalings / all_update_data  (well-formedness and
-   diag_is_last of the assembled matrix, "denotes K_red", "update_data = fresh") -- those statements are covered by the exact
-   correspondence of tools/kktelim_stage.py only.  KKT_EQ_ELIMINATED / KKT_INEQ_ELIMINATED are not modelled. *)
-From PIQP Require Import Base CSC LinAlg KKTProofs KKTSparseFull KKTSparseFullProofs KKTSparseAll KKTSparseAllProofs.
+   Composition (identity ordering):  all_create (a)+(b),  all_init establishes the static invariant,  all_update_scalings from any
+   state with the static invariant reaches the canonical form (c), and the canonical form denotes a_Kred (KKTProofs.v) of the L2
+   system of data and scalings.  Vocabulary (KKTSparseAllProofs.v):
+     cache_ok n r XT X    X is a valid cached transpose of XT: wf_csc, outer index of the transpose, transposed values, produced by
+                          transpose_no_alloc from a matrix with the pattern of XT;
+     all_static d k       everything of the state except scalings and values of PKPt / GT_W_delta_inv_G: valid caches A, G, AT_A on
+                          the product pattern with the exact sums, pattern of PKPt = the modelled sum pattern, the three maps correct
+                          (map_ok), tmp_scatter zeroed, identity ordering;
+     all_form d c k       all_static + scalings c + every stored value = Kall d c (row, col);
+     all_scal_ok d c      scal_ok (KKTSparseFullProofs.v) + delta <> 0 + s_l z_inv_l + delta <> 0.
+   NOT proved: update_data = fresh (T2 for this mode; the lemmas it needs -- retranspose_ok, scatter_cache_ok, all_refresh_form --
+   are proved, the composition is not written), the value part of init (all_init leaves the canonical values for unit scalings),
+   and the permuted versions.  KKT_EQ_ELIMINATED / KKT_INEQ_ELIMINATED are not modelled. *)
+From PIQP Require Import Base CSC C14LemmasProofs LinAlg KKTProofs KKTSparseFull KKTSparseFullProofs KKTSparseAll KKTSparseAllTrProofs KKTSparseAllProofs.
 Local Open Scope nat_scope.
 
 (* (1) the merge walk.  src_ok n kcols S: S is compressed with n columns, strictly increasing, each contained in the column kcols j
@@ -34,7 +44,7 @@ Theorem C13_all_scatter_product_ok : forall (X XT C : csc F) (n r : nat) (wt : o
   (forall j q q', j < n -> cp C j <= q < cp C (S j) -> cp C j <= q' < cp C (S j) ->
      nth q (rowind C) 0 = nth q' (rowind C) 0 -> q = q') ->
   forall tmp : Vec, n <= length tmp -> (forall i, nth i tmp 0%Qc = 0%Qc) ->
-  exists cx, scatter_product X XT C wt tmp = Ok (mkcsc (nrows C) (ncols C) (colptr C) (rowind C) cx, tmp) /\
+  exists cx, scatter_product X XT C wt tmp = Ok (csc_set_vals C cx, tmp) /\
     length cx = nnz C /\
     forall j q, j < n -> cp C j <= q < cp C (S j) -> nth q (rowind C) 0 <= j ->
       nth q cx 0%Qc = prodval X XT r wt (nth q (rowind C) 0) j.
@@ -72,6 +82,75 @@ Theorem C13_all_of_cols_get : forall (n : nat) (cols : nat -> list nat) (val : n
     (forall r, ~ In r (cols j) -> csc_get (csc_of_cols n cols val) r j = 0%Qc).
 Proof. intros n cols val Hinc j Hj. split; [intros i Hi; now apply oc_get_in | intros r Hr; now apply oc_get_out]. Qed.
 Print Assumptions C13_all_of_cols_get.
+
+(* ===== the C14 transpose model: well-formedness of the result, and stability of the inner indices under re-transposition ===== *)
+Theorem C13_all_transpose_wf : forall A C C' : csc F, transpose_no_alloc A C = Ok C' -> colptr C' = colptr C ->
+  nrows C = ncols A -> wf_csc C = true -> wf_csc C' = true.
+Proof. exact tr_wf. Qed.
+Print Assumptions C13_all_transpose_wf.
+
+Theorem C13_all_retranspose_rows : forall (A0 A1 : csc F) (fin : list nat),
+  colptr A1 = colptr A0 -> rowind A1 = rowind A0 -> ncols A1 = ncols A0 -> length (vals A1) = length (vals A0) ->
+  forall C0 A A' : csc F, transpose_no_alloc A0 C0 = Ok A -> rowind A = fin -> colptr A = colptr C0 ->
+  transpose_no_alloc A1 A = Ok A' -> rowind A' = rowind A.
+Proof. exact retranspose_rows. Qed.
+Print Assumptions C13_all_retranspose_rows.
+
+Theorem C13_all_cache_ok : forall (XT : csc F) (n r : nat), wf_csc XT = true -> nrows XT = n -> ncols XT = r ->
+  (exists X, csc_transpose XT = Ok X /\ cache_ok n r XT X) /\
+  (forall XT1 X, cache_ok n r XT X -> same_pat XT1 XT -> wf_csc XT1 = true -> nrows XT1 = n -> ncols XT1 = r ->
+     exists X', transpose_no_alloc XT1 X = Ok X' /\ cache_ok n r XT1 X' /\ rowind X' = rowind X /\ colptr X' = colptr X).
+Proof. intros XT n r Hw Hn Hr. split; [now apply csc_transpose_ok|]. intros XT1 X. apply retranspose_ok. Qed.
+Print Assumptions C13_all_cache_ok.
+
+(* ===== (a) + (b): init_workspace + create_kkt_matrix ===== *)
+Theorem C13_all_create : forall d : sdata, wf_sdata d -> upper_only (sd_P d) = true -> sorted_colsb (sd_P d) = true ->
+  forall rho delta : F, delta <> 0%Qc -> (1 + delta)%Qc <> 0%Qc ->
+  exists am, all_create d rho delta = Ok am /\
+    let K := am_K am in
+    let kcols := kcols_all d (am_A am) (am_G am) in
+    nrows K = sd_n d /\ ncols K = sd_n d /\ wf_csc K = true /\ upper_only K = true /\ diag_is_last K /\
+    colptr K = colptr (csc_of_cols (sd_n d) kcols (fun _ _ => 0%Qc)) /\ rowind K = rowind (csc_of_cols (sd_n d) kcols (fun _ _ => 0%Qc)) /\
+    map_ok (sd_n d) kcols (sd_P d) (am_P2K am) /\ map_ok (sd_n d) kcols (am_ATA am) (am_A2K am) /\ map_ok (sd_n d) kcols (am_GTG am) (am_G2K am) /\
+    forall i j, i <= j -> j < sd_n d ->
+      csc_get K i j = (csc_get (sd_P d) i j + (if i =? j then rho else 0) + 1 / delta * SAd d i j
+                       + sum_n (sd_m d) (fun l => (csc_get (sd_GT d) i l * csc_get (sd_GT d) j l)%Qc) * (1 / (1 + delta)))%Qc.
+Proof. exact all_create_thm. Qed.
+Print Assumptions C13_all_create.
+
+(* ===== init (identity ordering) succeeds and establishes the static invariant ===== *)
+Theorem C13_all_init_static : forall d : sdata, wf_sdata d -> sorted_colsb (sd_P d) = true ->
+  forall rho delta : F, delta <> 0%Qc -> (1 + delta)%Qc <> 0%Qc -> scal_ok d (unit_scal d rho delta) ->
+  exists k, all_init d rho delta None = Ok k /\ all_static d k /\ ak_sc k = unit_scal d rho delta.
+Proof. exact all_init_static. Qed.
+Print Assumptions C13_all_init_static.
+
+(* ===== (c): update_scalings from init or any later state; W = 1 / (s z_inv + delta) ===== *)
+Theorem C13_all_update_scalings_form : forall d : sdata, wf_sdata d -> upper_only (sd_P d) = true -> sorted_colsb (sd_P d) = true ->
+  forall (k : akkt) (rho delta : F) (s s_lb s_ub z z_lb z_ub zi zlbi zubi : Vec),
+  all_static d k ->
+  sd_nlb d <= length s_lb -> sd_nlb d <= length z_lb -> sd_nub d <= length s_ub -> sd_nub d <= length z_ub ->
+  vinv z = Ok zi -> vinv (head (sd_nlb d) z_lb) = Ok zlbi -> vinv (head (sd_nub d) z_ub) = Ok zubi ->
+  all_scal_ok d (new_scal d (ak_sc k) rho delta s s_lb s_ub zi zlbi zubi) ->
+  exists k', all_update_scalings d k rho delta s s_lb s_ub z z_lb z_ub = Ok k' /\
+             all_form d (new_scal d (ak_sc k) rho delta s s_lb s_ub zi zlbi zubi) k'.
+Proof. exact all_update_scalings_form. Qed.
+Print Assumptions C13_all_update_scalings_form.
+
+(* the four refresh calls alone (what update_data runs for any non-zero mask) *)
+Theorem C13_all_refresh_form : forall d : sdata, wf_sdata d -> upper_only (sd_P d) = true -> sorted_colsb (sd_P d) = true ->
+  forall k : akkt, all_static d k -> all_scal_ok d (ak_sc k) -> exists k', all_refresh d k = Ok k' /\ all_form d (ak_sc k) k'.
+Proof. exact all_refresh_form. Qed.
+Print Assumptions C13_all_refresh_form.
+
+(* the canonical form denotes the reduced operator K_red = P + (rho + box) I + G^T W G + (1/delta) A^T A of KKTProofs.v *)
+Theorem C13_all_form_denotes : forall d : sdata, wf_sdata d -> upper_only (sd_P d) = true ->
+  forall (c : scal) (k : akkt), all_form d c k ->
+  let K := mkcsc (sd_n d) (sd_n d) (ak_kp k) (ak_ki k) (ak_kx k) in
+  wf_csc K = true /\ upper_only K = true /\ diag_is_last K /\
+  forall i j, i <= j -> j < sd_n d -> csc_get K i j = a_Kred (sys_sparse d c) i j.
+Proof. exact all_form_denotes. Qed.
+Print Assumptions C13_all_form_denotes.
 
 (* non-vacuity: the example of Properties_C13_full.v (P 3x3 without stored (1,1), p = m = 1): init under the identity ordering
    and under the ordering (2,0,1); the walk maps the four entries of P_utri to positions 0,1,3,4 of the 5-entry reduced matrix *)
